@@ -12,7 +12,6 @@ import (
 
 	"pgregory.net/rapid"
 
-	"verif/internal/ev"
 )
 
 type sk int
@@ -162,13 +161,17 @@ type gen struct {
 	feat  map[string]bool
 	bigLits bool
 	allowAtomics bool
-	noNestedStructs bool
-	noHandleVecStore bool
+	av map[string]bool // open known-finding tags the generator stays away from
 	fnDepth int
 	inSwitch int
 	retExpr func(g *gen) string
 	allowDiscard bool
 	idxNest int
+	// avoidFatal: stay away from constructs on which the backend dies with an
+	// unrecoverable stack overflow (a never-initialised local whose only store
+	// reads the local itself: "var v: vec4<f32>; v = v + x;").  That crash is
+	// a robustness finding (C10), and it would take the whole shard down.
+	avoidFatal bool
 }
 
 func (g *gen) n(lo, hi int) int { return rapid.IntRange(lo, hi).Draw(g.t, "n") }
@@ -220,15 +223,12 @@ func (g *gen) storageMember(depth int) *wty {
 	switch {
 	case c < 6 || depth > 1:
 		t := g.valueType(false, true)
-		if t.k == tMat && t.r == 2 && ev.Excluded("dxil-mat-cx2-buffer") {
-			t = mat(t.n, 4)
-		}
 		return t
 	case c < 9:
 		e := g.valueType(false, false)
 		return arr(e, g.n(1, 6))
 	default:
-		if g.noNestedStructs || depth > 0 || len(g.structs) == 0 {
+		if g.av["dxil-buffer-access-chain"] || depth > 0 || len(g.structs) == 0 {
 			return arr(g.valueType(false, false), g.n(1, 4))
 		}
 		return g.structs[g.n(0, len(g.structs)-1)]
@@ -247,14 +247,13 @@ func (g *gen) uniformMember() *wty {
 	case 4, 5:
 		return vec(4, []sk{kF32, kI32, kU32}[g.n(0, 2)])
 	case 6:
-		r := g.n(2, 4)
-		if r == 2 && ev.Excluded("dxil-mat-cx2-buffer") {
-			r = 4
-		}
-		return mat(g.n(2, 4), r)
+		return mat(g.n(2, 4), g.n(2, 4))
 	case 7:
 		return mat(4, 4)
 	default:
+		if g.av["dxil-buffer-access-chain"] {
+			return vec(4, []sk{kF32, kI32, kU32}[g.n(0, 2)])
+		}
 		return arr(vec(4, []sk{kF32, kI32, kU32}[g.n(0, 2)]), g.n(1, 8))
 	}
 }
@@ -305,8 +304,10 @@ func (g *gen) addPlaces(base string, t *wty, writable bool, res int) {
 		}
 	case tArr:
 		b, cnt, el := base, t.cnt, t.elem
+		isRes := res >= 0
 		idx := func(g *gen) string {
-			if cnt > 0 && g.chance(40) {
+			dynOnly := isRes && g.av["dxil-buffer-access-chain"]
+			if cnt > 0 && g.chance(40) && !dynOnly {
 				return fmt.Sprintf("%s[%d]", b, g.n(0, cnt-1))
 			}
 			i := "ru"
@@ -318,8 +319,11 @@ func (g *gen) addPlaces(base string, t *wty, writable bool, res int) {
 				}
 				i, _ = g.expr(scalar(kU32), d)
 				g.idxNest--
-			} else if g.chance(50) {
+			} else if g.chance(50) && !dynOnly {
 				i = fmt.Sprintf("%du", g.n(0, 70))
+			}
+			if dynOnly && i != "ru" {
+				i = fmt.Sprintf("ru + %s", i)
 			}
 			if cnt > 0 {
 				return fmt.Sprintf("%s[(%s) %% %du]", b, i, cnt)
@@ -423,6 +427,16 @@ func (g *gen) nonZeroLit(t *wty) string {
 	return one(t.s)
 }
 
+// litValue canonicalises an integer literal (decimal or hex, i/u suffix).
+func litValue(l string) string {
+	t := strings.TrimRight(l, "iu")
+	var v int64
+	if _, err := fmt.Sscanf(t, "%v", &v); err != nil {
+		return l
+	}
+	return fmt.Sprint(uint32(v))
+}
+
 // ---------------------------------------------------------------- scope
 
 func (g *gen) push()  { g.scopes = append(g.scopes, nil) }
@@ -481,6 +495,16 @@ func (g *gen) runtimeLeaf(t *wty) string {
 func (g *gen) leaf(t *wty) (string, bool) {
 	vars := g.varsOf(t, false)
 	places := g.placesOf(t, false)
+	if g.av["dxil-buffer-access-chain"] {
+		// buffer members are only read as a whole into a let (stmt "bufread")
+		var np []place
+		for _, p := range places {
+			if p.res < 0 {
+				np = append(np, p)
+			}
+		}
+		places = np
+	}
 	c := g.n(0, 9)
 	switch {
 	case c < 5 && len(vars) > 0:
@@ -522,6 +546,9 @@ func (g *gen) expr(t *wty, d int) (string, bool) {
 				a, ca := g.expr(t, d-1)
 				b, cb := g.expr(t, d-1)
 				op := []string{"&&", "||", "==", "!=", "&", "|"}[g.n(0, 5)]
+				if g.inLoop > 0 && g.av["dxil-bool-shortcircuit-in-loop"] && len(op) == 2 && op[0] == op[1] && op != "==" {
+					op = op[:1]
+				}
 				return fmt.Sprintf("(%s %s %s)", a, op, b), ca && cb
 			case 4:
 				a, ca := g.expr(t, d-1)
@@ -559,6 +586,9 @@ func (g *gen) expr(t *wty, d int) (string, bool) {
 				}
 				return fmt.Sprintf("%s(%s)", t, strings.Join(p, ", ")), all
 			case 3:
+				if g.av["dxil-not-vec-bool"] {
+					return g.leaf(t)
+				}
 				a, ca := g.expr(t, d-1)
 				return fmt.Sprintf("(!%s)", a), ca
 			default:
@@ -923,6 +953,25 @@ func fromU32(e string, t *wty) string {
 	return e
 }
 
+// bufRead emits "let x: T = <buffer member>;" for a random resource place.
+func (g *gen) bufRead(in string, w *strings.Builder) bool {
+	var ps []place
+	for _, p := range g.places {
+		if p.res >= 0 && !p.atomic {
+			ps = append(ps, p)
+		}
+	}
+	if len(ps) == 0 {
+		return false
+	}
+	p := ps[g.n(0, len(ps)-1)]
+	name := g.fresh("b")
+	fmt.Fprintf(w, "%slet %s: %s = %s;\n", in, name, p.ty, p.expr(g))
+	g.declare(scopeVar{name: name, ty: p.ty})
+	g.use("buffer-read")
+	return true
+}
+
 // ---------------------------------------------------------------- statements
 
 func (g *gen) ind(level int) string { return strings.Repeat("  ", level) }
@@ -949,6 +998,7 @@ func (g *gen) stmt(level int, w *strings.Builder) {
 	c := g.n(0, 99)
 	nest := level < 7
 	switch {
+	case c < 8 && g.bufRead(in, w): // whole-member read of a buffer into a let
 	case c < 22: // let
 		t := g.valueType(true, true)
 		e, _ := g.expr(t, d)
@@ -956,9 +1006,9 @@ func (g *gen) stmt(level int, w *strings.Builder) {
 		fmt.Fprintf(w, "%slet %s: %s = %s;\n", in, name, t, e)
 		g.declare(scopeVar{name: name, ty: t})
 	case c < 36: // var
-		t := g.valueType(true, true)
+		t := g.valueType(true, !g.av["dxil-local-matrix-var"])
 		name := g.fresh("v")
-		if g.chance(15) {
+		if g.chance(15) && !g.avoidFatal {
 			fmt.Fprintf(w, "%svar %s: %s;\n", in, name, t)
 		} else {
 			e, _ := g.expr(t, d)
@@ -1010,7 +1060,7 @@ func (g *gen) stmt(level int, w *strings.Builder) {
 		p := ws[g.n(0, len(ws)-1)]
 		e, _ := g.expr(p.ty, d)
 		target := p.expr(g)
-		if p.ty.k == tVec && g.chance(20) && !(p.res >= 0 && g.noHandleVecStore) {
+		if p.ty.k == tVec && g.chance(20) {
 			ce, _ := g.expr(scalar(p.ty.s), d-1)
 			fmt.Fprintf(w, "%s%s.%c = %s;\n", in, target, swz[g.n(0, p.ty.n-1)], ce)
 			g.use("buffer-component-store")
@@ -1051,10 +1101,14 @@ func (g *gen) stmt(level int, w *strings.Builder) {
 				for k := g.n(1, 3); k > 0; k-- {
 					l := g.intLit(st.s, false)
 					l = strings.Trim(l, "()")
-					if strings.Contains(l, " ") || used[l] {
+					if strings.Contains(l, " ") {
 						continue
 					}
-					used[l] = true
+					key := litValue(l)
+					if used[key] {
+						continue
+					}
+					used[key] = true
 					sels = append(sels, l)
 				}
 				if len(sels) == 0 {
@@ -1089,7 +1143,11 @@ func (g *gen) stmt(level int, w *strings.Builder) {
 		case 1:
 			fmt.Fprintf(w, "%svar %s: u32 = 0u;\n", in, cnt)
 			extra, _ := g.expr(scalar(kBool), d)
-			fmt.Fprintf(w, "%swhile ((%s < %du) && (%s || (%s < 1u))) {\n", in, cnt, k, extra, cnt)
+			and, or := "&&", "||"
+			if g.av["dxil-bool-shortcircuit-in-loop"] {
+				and, or = "&", "|"
+			}
+			fmt.Fprintf(w, "%swhile ((%s < %du) %s (%s %s (%s < 1u))) {\n", in, cnt, k, and, extra, or, cnt)
 			fmt.Fprintf(w, "%s  %s = %s + 1u;\n", in, cnt, cnt)
 			g.push()
 			g.declare(scopeVar{name: cnt, ty: scalar(kU32)})
